@@ -104,4 +104,15 @@ PLAN = {
         quick=[dict(test="TestC07", cases=320, shards=16, timeout=900)],
         thorough=[dict(test="TestC07", cases=9600, shards=16, timeout=3400, shrink=120)],
     ),
+    "C10": dict(
+        level="exploration",
+        rule=("one precompile call per case on a prepared state (victims with delegations, accrued rewards, a queued withdrawal, ERC-20 allowances towards the crosschain precompile, a share allowance of 0 / exact / short-by-one / ample towards the caller; a parked deposit): "
+              "caller in {EOA, contract, contract called by a victim}, call kind in {CALL, STATICCALL, DELEGATECALL, CALLCODE}, all 12 state-changing methods with arguments naming victims (from in transferFromShares, the victim's pool id also as 2^64+id, refund address), "
+              "governance switch in {none, address (upper case), address/method, address/METHOD, unrelated entries}. Oracle: no account other than the direct caller loses any portfolio component (bank+pending rewards together, ERC-20, shares, unbonding, queued withdrawals, outgoing calls) "
+              "except from in transferFromShares by exactly shares <= allowance with allowance reduced exactly; non-CALL kinds and disabled targets fail and leave the state equal to that of a no-op transaction by the same sender. "
+              "non-trivial = the call names a victim, uses a non-CALL kind, runs under a switch list, or is made by a contract a victim called"),
+        assumptions=["the governance switch entry format is the one the code documents: 0xaddr or 0xaddr/methodIdHex (no 0x on the method id), any letter case"],
+        quick=[dict(test="TestC10", cases=1600, shards=16, timeout=900)],
+        thorough=[dict(test="TestC10", cases=48000, shards=16, timeout=3400, shrink=120)],
+    ),
 }
